@@ -4,8 +4,8 @@ EXTENDS Divisor
 
 CONSTANTS TCases     \* set of <<P, L>> pairs
 
-VARIABLE case
-vars == <<case>>
+VARIABLES case, phase
+vars == <<case, phase>>
 
 (***************************************************************************)
 (* points                                                                  *)
@@ -34,8 +34,10 @@ ExtPts(P, L, d) ==
 (***************************************************************************)
 (* cases                                                                   *)
 (***************************************************************************)
-Init == case \in {[P |-> c[1], L |-> c[2]] : c \in TCases}
-Next == UNCHANGED case
+Init == phase = 0 /\ case \in {[P |-> c[1], L |-> c[2]] : c \in TCases}
+\* TLC computes initial states in one thread: every case takes one step, and the invariants (and the
+\* scenario emission) are evaluated on the state after it, by the workers
+Next == phase = 0 /\ phase' = 1 /\ UNCHANGED case
 Spec == Init /\ [][Next]_vars
 
 Es(L) == 1..(L \div 2 + 1)
@@ -52,11 +54,12 @@ DocTransitionOn(P, L, pts) ==
        LET d == Len(pts[i].x)
            lhs == ESub(P, EPow(P, pts[i].x, L), EOne(d))
        IN lhs = EMul(P, pre[i][L - e + 1], suf[i][L - e + 1])
-DocTransition == /\ DocTransitionOn(case.P, case.L, BasePts(case.P, case.L))
+DocTransition == phase = 1 =>
+  /\ DocTransitionOn(case.P, case.L, BasePts(case.P, case.L))
                  /\ DocTransitionOn(case.P, case.L, ExtPts(case.P, case.L, 2))
                  /\ DocTransitionOn(case.P, case.L, ExtPts(case.P, case.L, 3))
 \* the zero set over the trace domain is exactly the non-exempt steps
-ZeroSet ==
+ZeroSet == phase = 1 =>
   LET pts == BasePts(case.P, case.L)
       pre == PTable(case.P, case.L, pts)
   IN \A i \in 1..Len(pts) : \A e \in Es(case.L) :
@@ -74,5 +77,5 @@ Scenario(c) ==
    d2 |-> PtsJson(c.P, c.L, ExtPts(c.P, c.L, 2)),
    d3 |-> PtsJson(c.P, c.L, ExtPts(c.P, c.L, 3)),
    deg |-> [e \in 1..(c.L \div 2 + 1) |-> c.L - e]]
-Emit == PrintT(<<"REPLAY", ToJson(Scenario(case))>>)
+Emit == phase = 1 => PrintT(<<"REPLAY", ToJson(Scenario(case))>>)
 =============================================================================
